@@ -115,3 +115,16 @@ func TestVerifFindingEscapeAmbiguousBackslashTail(t *testing.T) {
 		}
 	}
 }
+
+// C13 ("with the key sequence / value as written"): findEnd looked at the character *after* the first one of a
+// symbol before anything else, so a symbol whose second character ends it - every one-character symbol - was
+// read as empty: `set completion-query-items 0` assigned nothing.
+func TestVerifFindingOneCharacterValue(t *testing.T) {
+	cfg := NewDefaultConfig()
+	if err := ParseBytes([]byte("set completion-query-items 7\n"), cfg); err != nil {
+		t.Fatalf("parse: %v", err)
+	}
+	if got := cfg.GetInt("completion-query-items"); got != 7 {
+		t.Errorf("set completion-query-items 7: variable is %d, want 7", got)
+	}
+}
